@@ -185,6 +185,48 @@ def rule_sequence(ctx):
     if len(nexts) != 1:
         return
     nb = nexts[0]
+    # "reports every depth up to N before its bestmove": the iteration loop is left only when the range is exhausted or an
+    # abort test (stop flag, limits) fires - no other way out (a break on a proven mate, a return from a table hit, ...)
+    live = b.live_blocks()
+    loop = {x for x in live if not b.blocks[x].cleanup and (x == nb or (b.reaches(x, nb) and b.reaches(nb, x)))}
+    aborts = C.abort_edges(ix, b)
+    other = []
+    n_exits = 0
+    for x in sorted(loop):
+        t = b.blocks[x].term
+        for y in b.succ(x):
+            if y in loop or b.blocks[y].cleanup:
+                continue
+            if not any(b.blocks[z].term["k"] == "return" for z in b.reachable_from(y, include_start=True)):
+                continue    # a panic path
+            n_exits += 1
+            if (x, y) in aborts:
+                continue
+            if t["k"] == "switch":
+                dsc = sym.operand(t["discr"])
+                if dsc[0] == "discr" and "RangeInclusive" in expr_str(dsc[1]) and "next" in expr_str(dsc[1]):
+                    continue
+            other.append((x, y))
+    ctx.check(n_exits >= 2 and not other, "%s:loop-left-only-at-range-end-or-abort" % C.ITER_DEEP, "the iteration loop is left only when 1..=max_depth is exhausted or an abort test fires (%d exit edges)" % n_exits,
+              b.where(other[0][0] if other else nb), bad_what="the iteration loop can also be left at %s: a depth-limited search may stop before reporting every depth up to its limit" % ", ".join(b.where(x) for x, _y in other[:3]))
+    # ... and log_uci_info is the only place an `info` line comes from: any other output site whose text starts with `info`
+    # (a provisional report in the middle of an iteration, ...) is a line whose depth sequence nothing here decides
+    n_sites = 0
+    for ob in ix.fn_bodies():
+        if ob.key == LOG_INFO:
+            continue
+        osym = None
+        for obi, ot in ob.calls():
+            if not callee_is(ot, "search::Search::log", "logger::Logger::log", "*Logger>::log") or len(ot["args"]) < 2:
+                continue
+            n_sites += 1
+            osym = osym or mir.Sym(ob, ix)
+            txts = render_texts(osym.operand(ot["args"][1]), ix)
+            starts = [x for x in (txts or []) if x.lstrip().startswith("info")]
+            if starts:
+                ctx.bad("%s:second-info-source" % ob.key, "%s prints `%s`: an info line that does not come from log_uci_info, so iteration order (no gaps, no repeats) and syntax are not decided for it"
+                        % (C.short(ob.key), " ".join(starts[0].replace(V, "{}").split())[:80]), ob.where(obi))
+    ctx.check(n_sites >= 1, "info-lines:only-from-log_uci_info", "%d other output site(s) examined; none prints an `info` line" % n_sites, b.where(lb), bad_what="no output site found besides log_uci_info (anchor moved)")
     # depth argument of the info line is the loop variable
     d = sym.operand(b.blocks[lb].term["args"][1])
     is_loop_var = d[0] == "field" and d[-1] == "0" and isinstance(d[1], tuple) and d[1][0] == "as" and d[1][2] == "Some" and "next" in expr_str(d[1][1])
